@@ -54,7 +54,7 @@ func c09CaseFromLeader(rt *rapid.T, rec *verifx.Recorder, r *c08Run, caseStart u
 	}
 	n := len(entries) + 1
 	c := &c09Case{N: n, Entries: make([]*c09Entry, n+1), States: make([]c09State, n+1), Idx: make([]uint64, n+1),
-		Data: make([][]byte, n+1), Ext: make([][]byte, n+1), Scrub: r.norm}
+		Data: make([][]byte, n+1), Ext: make([][]byte, n+1), Scrub: r.norm, Origin: r.normAny(r.trace)}
 	c.States[0] = c09State{}
 	level := &c09Entry{Pos: 1, Index: caseStart, Kind: "put", Key: c09LevelKey, Value: []byte("x"), NumChunks: 1, FirstPos: 1}
 	raw, err := proto.Marshal(&LogData{Operations: []*LogOperation{{OpType: putOp, Key: level.Key, Value: level.Value}}})
@@ -139,6 +139,31 @@ func c09CaseFromLeader(rt *rapid.T, rec *verifx.Recorder, r *c08Run, caseStart u
 			}
 			e.ModelCommit = op.err == nil
 			if e.ModelCommit {
+				// A listing verification describes stored entries: if the listing it names was the same in every state
+				// from the transaction's start up to this entry, the shipped hash must be the hash of that listing. A
+				// hash that matches no state the transaction can have seen is accepted only by replicas that skip the
+				// verification (fast path) and rejected by every replica that performs it (after a restart or a snapshot
+				// installation inside the transaction's window): same log, different verdicts.
+				for _, v := range e.Verifies {
+					if !v.IsList || len(v.Hash) < 1 {
+						continue
+					}
+					want := strings.Join(c09ModelList(c.States[e.StartPos], v.Prefix, v.After, v.Limit), "\n")
+					same := true
+					for q := e.StartPos + 1; q < p; q++ {
+						if strings.Join(c09ModelList(c.States[q], v.Prefix, v.After, v.Limit), "\n") != want {
+							same = false
+						}
+					}
+					if !same {
+						continue
+					}
+					if h, err := createVerificationEntryOfType(v.Hash[0], v.Key, []byte(want)); err == nil && !bytes.Equal(h, v.Hash) {
+						rec.Violation(rt, "leader-commits-what-verifying-replicas-reject:list-hash-matches-no-state", r.detail(nil), "%s",
+							r.norm(fmt.Sprintf("T%d: the listing %s was %q in every state from its start @%d to its commit entry @%d, but the verification hash shipped in the entry is not the hash of that listing; the leader committed it without verifying (fast path), a replica that verifies it (restart or snapshot installation inside the transaction's window) rejects it", op.Txn.ID, v.Key, strings.Split(want, "\n"), e.StartIndex, le.Index)))
+						return nil
+					}
+				}
 				for _, w := range e.Writes {
 					if w.Del {
 						delete(next, w.Key)
